@@ -21,6 +21,7 @@ pub fn phases(prop: &str, tier: Tier) -> Vec<Phase> {
     match prop {
         "C08" => vec![
             Phase { name: if q { "pair-sweep4" } else { "pair-sweep5" }, units: 13, seeded: false },
+            Phase { name: "pair-large", units: 3, seeded: false },
             Phase { name: "pair-seeded", units: if q { 200 } else { 20_000 }, seeded: true },
         ],
         "C15" => vec![Phase { name: if q { "c15-sweep4" } else { "c15-sweep5" }, units: crate::fam_histr::SWEEP_UNITS, seeded: false }],
@@ -40,6 +41,7 @@ pub fn phases(prop: &str, tier: Tier) -> Vec<Phase> {
         ],
         "C01" | "C02" | "C04" | "C18" => vec![
             Phase { name: "rt-grid", units: 13, seeded: false },
+            Phase { name: "rt-large", units: 3, seeded: false },
             Phase { name: "rt-seeded", units: if q { 400 } else { 40_000 }, seeded: true },
         ],
         "C05" => vec![
@@ -91,6 +93,8 @@ pub fn run_unit(prop: &str, phase: &str, unit: u64, seed: u64, _tier: Tier, ctx:
             }
         }
         "rt-grid" => crate::fam_rt::grid_unit(unit, ctx, ctl),
+        "rt-large" => crate::fam_rt::large_unit(unit, ctx, ctl),
+        "pair-large" => crate::fam_pair::large_unit(unit, ctx, ctl),
         "pair-sweep3" => crate::fam_pair::sweep_unit(unit, 3, ctx, ctl),
         "pair-sweep4" => crate::fam_pair::sweep_unit(unit, 4, ctx, ctl),
         "pair-sweep5" => crate::fam_pair::sweep_unit(unit, 5, ctx, ctl),
@@ -168,7 +172,7 @@ pub fn meta(prop: &str) -> PropMeta {
     match prop {
         "C01" | "C02" | "C04" | "C05" | "C06" | "C18" => PropMeta {
             level: "exploration",
-            rule: "rt-grid: 13 types x parts 1..=6 x points/part 1..=8 x {Direct, BufWriter} x {with,without shx}, enumerated; rt-seeded: one seeded scenario per run (type, 0..40 shapes via public constructors, swarm-drawn float classes, finalize placement, ending, stacks, chunk/EINTR schedules). A run counts as non-trivial if it wrote at least one shape; distinct = distinct (type, per-shape part-length signature, writer stack, call pattern, reader stack) tuples by hash.",
+            rule: "rt-grid: 13 types x parts 1..=6 x points/part 1..=8 x {Direct, BufWriter} x {with,without shx}, enumerated; rt-large (C01 C02 C04 C18): files of 1023..10000 records, shapes of 1023..2049 parts and of 1023..8193 points per part, around the readers' internal limits; rt-seeded: one seeded scenario per run (type, 0..40 shapes via public constructors, swarm-drawn float classes, finalize placement, ending, stacks, chunk/EINTR schedules). A run counts as non-trivial if it wrote at least one shape; distinct = distinct (type, per-shape part-length signature, writer stack, call pattern, reader stack) tuples by hash.",
             explanation: "Fault-free configuration of the simulator with must-be-masked transfer schedules: the real writer runs against simulated devices, the bytes are judged by an independent decoder and read back through every reading route of the real reader. Simulated time = device operations (logical_steps); the code under test has no clock.",
             exhaustive: false,
         },
